@@ -51,7 +51,10 @@ type c14Case struct {
 	// messages, so Receive fails with a non-EOF error while the stream is open.
 	Limit bool `json:"limit,omitempty"`
 	// RR: explore around the round-robin default scheduler instead of run-to-block.
-	RR     bool  `json:"rr,omitempty"`
+	RR bool `json:"rr,omitempty"`
+	// Ideal: idealised transport that notices the end of the request context
+	// at once in every state (default: HTTP/2 semantics as measured on net/http).
+	Ideal  bool  `json:"ideal,omitempty"`
 	Prefix []int `json:"prefix,omitempty"` // schedule (replay)
 }
 
@@ -68,6 +71,9 @@ func (k c14Case) key() string {
 	}
 	if k.RR {
 		sp += "/rr"
+	}
+	if k.Ideal {
+		sp += "/ideal"
 	}
 	return fmt.Sprintf("%s/%s/%s%s/%s", k.Proto, k.ReqMode, k.Client, sp, k.Handler)
 }
@@ -306,6 +312,9 @@ type c14Obs struct {
 	Leaked       []string
 	HandlerStuck bool
 	Stacks       string
+	// CancelDeferred: the transport did not notice the cancellation at the
+	// moment it happened (HTTP/2, body sender blocked on an idle request body)
+	CancelDeferred bool
 }
 
 func classifyErr(err error) string {
@@ -360,7 +369,7 @@ func c14Body(k c14Case, s *bsched.Sched) any {
 		}
 		return nil
 	})
-	tr := &memhttp.Transport{Handler: h, Proto: 2, ReqMode: k.ReqMode, Gate: s.Gate}
+	tr := &memhttp.Transport{Handler: h, Proto: 2, ReqMode: k.ReqMode, Gate: s.Gate, PromptCancel: k.Ideal}
 	tr.OnReqClosed = func(who string) {
 		if who == "handler-done" && closedSeq == 0 {
 			closedSeq = tick()
@@ -453,6 +462,7 @@ func c14Body(k c14Case, s *bsched.Sched) any {
 	// end state, before any tear-down
 	if ex := tr.Last(); ex != nil {
 		obs.HandlerDone = ex.IsDone()
+		obs.CancelDeferred = ex.WasCancelDeferred()
 		obs.BodyCloses = ex.Closes()
 		obs.GotResponse = ex.GotResponse()
 	} else {
@@ -480,6 +490,9 @@ func c14Judge(c *ev.Collector, k c14Case, x *bsched.Exec, pred c14Prediction) st
 	kk := k
 	kk.Prefix = x.TrimmedChoices()
 	tags := k.tags()
+	if obs.CancelDeferred {
+		tags = append(tags, "cancel-unnoticed-by-h2-transport")
+	}
 	viol := func(clause, outcome, format string, args ...any) {
 		c.Violation("TestC14", clause, outcome, tags, kk, "%s [%s]: "+format+"\n  schedule: %v", append(append([]any{k.key(), schedLine(x)}, args...), traceOf(x, 400))...)
 	}
@@ -652,6 +665,13 @@ func c14Cases(thorough bool) []c14Case {
 					}
 				}
 			}
+		}
+	}
+	// cancelling programs additionally against the idealised transport
+	for _, k := range append([]c14Case(nil), out...) {
+		if k.ReqMode == memhttp.ReqEager && strings.Contains(k.Client, "X") {
+			k.Ideal = true
+			out = append(out, k)
 		}
 	}
 	return out
